@@ -81,6 +81,7 @@ func Run(tier string) {
 		run.Distinct("scrypt+" + name)
 	}
 	pluginFailures(run, w)
+	zeroStanzaRecipients(run, w)
 	largeHeaderRefusals(run, w)
 	randFaults(run, w)
 	if run.Thorough() {
@@ -172,7 +173,8 @@ func randFaults(run *vk.Run, w *world.World) {
 // failed to wrap the file key: Encrypt refuses the list, wherever the plugin recipient stands, with nothing written.
 func pluginFailures(run *vk.Run, w *world.World) {
 	dir := c16.Setup()
-	for _, script := range [][]string{{"error"}, {"rs_ok", "error"}, {"rs_ok2", "error"}, {"error", "rs_ok", "done"}} {
+	// (a plugin that goes away after a stanza, before "labels"/"done", has not finished wrapping either)
+	for _, script := range [][]string{{"error"}, {"rs_ok", "error"}, {"rs_ok2", "error"}, {"error", "rs_ok", "done"}, {"rs_ok", "eof"}, {"rs_ok", "rs_ok2", "eof"}, {"rs_ok", "trunc"}} {
 		for pos := 0; pos < 3; pos++ {
 			pr, err := c16.ScriptedRecipient(dir, script)
 			if err != nil {
@@ -259,5 +261,46 @@ func largeHeaderRefusals(run *vk.Run, w *world.World) {
 			}
 			run.Distinct(sig)
 		}
+	}
+}
+
+// noStanza declares labels and contributes no stanza at all (legal: Wrap may return an empty list).
+type noStanza struct{ labels []string }
+
+func (n noStanza) WrapWithLabels(fileKey []byte) ([]*age.Stanza, []string, error) {
+	return nil, n.labels, nil
+}
+func (n noStanza) Wrap(fileKey []byte) ([]*age.Stanza, error) { return nil, nil }
+
+// zeroStanzaRecipients: the label rule compares what recipients DECLARE, whether or not they put a stanza into the
+// header; a recipient without stanzas at the front of the list is still the first recipient.
+func zeroStanzaRecipients(run *vk.Run, w *world.World) {
+	L := func(ls ...string) age.Recipient { return world.LabelledRecipient{Present: true, Labels: ls} }
+	cases := []struct {
+		name string
+		rs   []age.Recipient
+		ok   bool
+	}{
+		{"Z(a),L(b)", []age.Recipient{noStanza{[]string{"a"}}, L("b")}, false},
+		{"Z(pq),x1", []age.Recipient{noStanza{[]string{"postquantum"}}, w.Recipient("x1")}, false},
+		{"Z(a),Z(b),L(b)", []age.Recipient{noStanza{[]string{"a"}}, noStanza{[]string{"b"}}, L("b")}, false},
+		{"x1,Z(a)", []age.Recipient{w.Recipient("x1"), noStanza{[]string{"a"}}}, false},
+		{"Z(a),L(a)", []age.Recipient{noStanza{[]string{"a"}}, L("a")}, true},
+		{"Z(),x1", []age.Recipient{noStanza{nil}, w.Recipient("x1")}, true},
+	}
+	for _, c := range cases {
+		cw := &coregen.CountingWriter{}
+		_, err := age.Encrypt(cw, c.rs...)
+		run.Eval(1)
+		sig := "zero-stanza:" + c.name
+		if c.ok && err != nil {
+			run.Violation("C11:compatible-list-refused:"+sig, err.Error(), nil)
+		}
+		if !c.ok && err == nil {
+			run.Violation("C11:incompatible-list-accepted:"+sig, fmt.Sprintf("Encrypt accepted [%s] (Z = a recipient that declares labels and adds no stanza) and wrote %d bytes", c.name, cw.Bytes), map[string]interface{}{"check": "C11.zerostanza", "list": c.name})
+		} else if !c.ok && (cw.Bytes != 0 || cw.Calls != 0) {
+			run.Violation("C11:bytes-written-on-refusal:"+sig, fmt.Sprintf("%d bytes written", cw.Bytes), nil)
+		}
+		run.Distinct(sig)
 	}
 }
